@@ -28,7 +28,7 @@ FLOORS = {"quick": {"token": 300000, "format.whole": 30000, "named": 20000, "rou
           "thorough": {"token": 3 * 10**6, "format.whole": 300000, "named": 200000, "roundtrip": 300000, "roundtrip.locale": 100000,
                        "partial": 50000, "mismatch": 100000}}
 REQUIRED_HOOKS = ["pendulum.from_format"]      # Formatter._format_token / Formatter.parse hooks add reach (internal calls); tokens are judged at the boundary
-TECHNIQUE = "runtime contract on Formatter._format_token against a per-token reference (strftime + integer arithmetic + the locale's own tables), whole-format and named-format checkers, format->from_format round-trip checker"
+TECHNIQUE = "runtime contract on Formatter._format_token against a per-token reference (strftime + integer arithmetic + the locale's own tables), whole-format and named-format checkers, format->from_format round-trip checker; tokens also judged at the workload boundary; round trips under rotating default locale and week_starts_at configuration (history of configurations)"
 LEVEL_TEXT = ("every token rendered during the workloads is compared with an independent per-token reference; whole formats built from random "
               "token sequences with separators, [escaped] text and backslash escapes are compared with the concatenated reference; named "
               "helpers against strftime compositions; round trips through from_format for full formats (numeric and localized, 27 locales), "
